@@ -690,3 +690,69 @@ Proof.
   apply equal_image_reduction. tauto.
 Qed.
 End SlhdsaSign.
+
+(* ---- repetition over a history (second audit, item 9) --------------------- *)
+
+(* the k consecutive n-byte windows of a tape *)
+Definition tape_windows (n k : nat) (t : bytes) : list bytes :=
+  map (fun i => firstn n (skipn (i * n) t)) (seq 0 k).
+
+Lemma tape_windows_nth n k t i : (i < k)%nat ->
+  nth_error (tape_windows n k t) i = Some (firstn n (skipn (i * n) t)).
+Proof.
+  intros H. unfold tape_windows. rewrite nth_error_map.
+  rewrite (nth_error_nth' (seq 0 k) 0%nat) by (rewrite seq_length; exact H).
+  rewrite seq_nth by exact H. reflexivity.
+Qed.
+
+(* In a history of encryptions under one key, the nonce fields at two
+   positions are equal iff the TAPE windows at those positions are equal ... *)
+Theorem encrypt_run_nonce_repeats_iff_tape_repeats A k prefix msgs s res s' i j ci cj wi wj :
+  encrypt_run A k prefix msgs s = Some (res, s') ->
+  nth_error res i = Some (Ok ci, wi) -> nth_error res j = Some (Ok cj, wj) ->
+  let n := nonce_len (scheme_of k) in
+  (nonce_field (scheme_of k) prefix ci = nonce_field (scheme_of k) prefix cj <->
+   firstn n (skipn (i * n) (r_tape s)) = firstn n (skipn (j * n) (r_tape s))).
+Proof.
+  intros H Ei Ej n.
+  destruct (encrypt_run_nonces_equal_iff A k prefix msgs s res s' i j ci cj wi wj H Ei Ej)
+    as (Wi & Wj & _ & _ & X & _).
+  fold n in Wi, Wj. rewrite <- Wi, <- Wj. exact X.
+Qed.
+
+(* ... hence on a tape whose first |msgs| windows of the nonce length are
+   pairwise different (NoDup), NO NONCE REPEATS: all nonce fields, and all
+   ciphertexts, of the history are pairwise different. *)
+Theorem encrypt_run_no_nonce_repeats A k prefix msgs s res s' :
+  encrypt_run A k prefix msgs s = Some (res, s') ->
+  NoDup (tape_windows (nonce_len (scheme_of k)) (length msgs) (r_tape s)) ->
+  forall i j ci cj wi wj, i <> j ->
+    nth_error res i = Some (Ok ci, wi) -> nth_error res j = Some (Ok cj, wj) ->
+    nonce_field (scheme_of k) prefix ci <> nonce_field (scheme_of k) prefix cj /\ ci <> cj.
+Proof.
+  intros H ND i j ci cj wi wj Hij Ei Ej.
+  destruct (encrypt_run_ith A k prefix msgs s res s' H) as (_ & _ & _ & Hlen & _).
+  assert (Hi : (i < length msgs)%nat) by (rewrite <- Hlen; apply nth_error_Some; congruence).
+  assert (Hj : (j < length msgs)%nat) by (rewrite <- Hlen; apply nth_error_Some; congruence).
+  assert (Hne : firstn (nonce_len (scheme_of k)) (skipn (i * nonce_len (scheme_of k)) (r_tape s)) <>
+                firstn (nonce_len (scheme_of k)) (skipn (j * nonce_len (scheme_of k)) (r_tape s))).
+  { intros E. apply Hij. rewrite NoDup_nth_error in ND. apply ND.
+    - unfold tape_windows. rewrite map_length, seq_length. exact Hi.
+    - rewrite !tape_windows_nth by assumption. f_equal. exact E. }
+  pose proof (encrypt_run_nonce_repeats_iff_tape_repeats A k prefix msgs s res s' i j ci cj wi wj H Ei Ej) as X.
+  cbv zeta in X. split.
+  - intros E. apply Hne. apply X. exact E.
+  - intros E. apply Hne. apply X. rewrite E. reflexivity.
+Qed.
+
+(* the converse: a tape that repeats a window makes the two nonces equal *)
+Theorem encrypt_run_repeated_window_repeats_nonce A k prefix msgs s res s' i j ci cj wi wj :
+  encrypt_run A k prefix msgs s = Some (res, s') ->
+  nth_error res i = Some (Ok ci, wi) -> nth_error res j = Some (Ok cj, wj) ->
+  firstn (nonce_len (scheme_of k)) (skipn (i * nonce_len (scheme_of k)) (r_tape s)) =
+  firstn (nonce_len (scheme_of k)) (skipn (j * nonce_len (scheme_of k)) (r_tape s)) ->
+  nonce_field (scheme_of k) prefix ci = nonce_field (scheme_of k) prefix cj.
+Proof.
+  intros H Ei Ej E.
+  apply (encrypt_run_nonce_repeats_iff_tape_repeats A k prefix msgs s res s' i j ci cj wi wj H Ei Ej). exact E.
+Qed.
